@@ -14,6 +14,7 @@ import (
 	"time"
 
 	"github.com/scrapli/scrapligo/driver/generic"
+	"github.com/scrapli/scrapligo/driver/network"
 	"github.com/scrapli/scrapligo/driver/opoptions"
 	"github.com/scrapli/scrapligo/driver/options"
 	"github.com/scrapli/scrapligo/response"
@@ -57,11 +58,16 @@ type c18cb struct {
 	delayed     bool   // the function makes the device emit its next emission after c18Delay
 	viaOptions  bool   // built with NewCallback + opoptions (else struct literal)
 	name        string
+	inner       string // the function runs Channel.SendInput(inner) itself (when the queue is empty), before any reply
 }
 
 type c18op struct {
-	input   string
-	timeout int // ms
+	input      string
+	timeout    int      // ms
+	opFW       []string // opoptions.WithFailedWhenContains for this operation
+	ignoredOpt bool     // an option meant for another object is passed too (must be ignored silently)
+	optErr     bool     // an option that returns an error: the operation must fail before writing anything
+	writeErr   int      // 0 none; 1 the transport refuses the input; 2 it refuses the return after the input
 }
 
 type c18case struct {
@@ -71,6 +77,13 @@ type c18case struct {
 	banner    bool // emission 0 is spontaneous (sent before the first operation)
 	ops       []c18op
 	kind      string
+	echo      bool                // the device echoes what is typed (input, replies)
+	network   bool                // run through network.Driver (SendWithCallbacks is promoted from the embedded generic.Driver)
+	drvFW     []string            // options.WithFailedWhenContains on the driver
+	special   map[string][][]byte // answers to the commands callback functions run themselves
+	innerBody map[string]string
+	readFault string // "", "eio", "eof": the transport fails after faultAt chunks have been delivered
+	faultAt   int
 	tscale    int // wall-clock scale of every timeout / delay (1; 4 when a case is re-run after a suspected load-induced timeout)
 }
 
@@ -213,6 +226,9 @@ func c18predict(cs *c18case) string {
 func genC18Dialogue(r *vlib.Rng, cs c18case, thorough bool) c18case {
 	cs.kind = "dialogue"
 	n := r.Range(1, 5)
+	if r.Chance(1, 40) {
+		n = 0
+	}
 	var trigWords []string
 	for i := 0; i < n; i++ {
 		var cb c18cb
@@ -246,6 +262,11 @@ func genC18Dialogue(r *vlib.Rng, cs c18case, thorough bool) c18case {
 			cb.nextTimeout = []int{c18Short, c18Short + 50, c18Short + 120, c18Long}[r.Intn(4)]
 		}
 		if cb.complete && !cb.fnErr && r.Chance(1, 8) {
+			cb.nilFn = true
+		}
+		if !cb.complete && !cb.fnErr && cb.reset && r.Chance(1, 14) {
+			// no function on an intermediate entry: the stage just changes (output reset, maybe a new
+			// timeout); with reset-output the following scan does not depend on timing
 			cb.nilFn = true
 		}
 		if !cb.nilFn && r.Chance(3, 5) {
@@ -288,7 +309,84 @@ func genC18Dialogue(r *vlib.Rng, cs c18case, thorough bool) c18case {
 		}
 		cs.ops = append(cs.ops, op)
 	}
+	c18decorate(r, &cs)
 	return cs
+}
+
+var c18fw = [][]string{{"ERROR"}, {"bad", "% "}, {"Abort", "warning", "no"}, {"never-there"}, {"login:", "Password:"}}
+
+// c18decorate adds the dimensions around the callback loop: echoing device, driver flavour, failure
+// strings (driver / operation), foreign and failing operation options, a function that runs a
+// channel operation of its own, transport faults.
+func c18decorate(r *vlib.Rng, cs *c18case) {
+	cs.echo = r.Chance(2, 5)
+	cs.network = r.Chance(1, 4)
+	pickFW := func() []string {
+		if r.Bool() && len(cs.emissions) > 0 { // a piece of what the device will say
+			var all []byte
+			for _, ch := range cs.emissions[r.Intn(len(cs.emissions))] {
+				all = append(all, ch...)
+			}
+			if t := strings.TrimSpace(string(all)); len(t) >= 3 {
+				a := r.Intn(len(t) - 2)
+				return []string{"never-there", t[a : a+3+r.Intn(len(t)-a-2)]}
+			}
+		}
+		return c18fw[r.Intn(len(c18fw))]
+	}
+	if r.Chance(1, 5) {
+		cs.drvFW = pickFW()
+	}
+	for k := range cs.ops {
+		op := &cs.ops[k]
+		if r.Chance(1, 5) {
+			op.opFW = pickFW()
+		}
+		op.ignoredOpt = r.Chance(1, 6)
+		op.optErr = r.Chance(1, 25)
+	}
+	if len(cs.ops) < 3 && r.Chance(1, 6) { // one more operation on the same objects (also after a timeout)
+		cs.ops = append(cs.ops, c18op{input: r.Pick([]string{"again", "retry", ""}), timeout: c18Short + 10*r.Intn(10)})
+	}
+	switch {
+	case r.Chance(1, 30):
+		k := r.Intn(len(cs.ops))
+		if cs.ops[k].input != "" && !cs.ops[k].optErr {
+			cs.ops[k].writeErr = 1 + r.Intn(2)
+		}
+	case r.Chance(1, 14):
+		cs.echo = false
+		total := 0
+		for _, e := range cs.emissions {
+			total += len(e)
+		}
+		cs.readFault = r.Pick([]string{"eio", "eof"})
+		cs.faultAt = r.Intn(total + 1)
+		// once the transport has failed, the poll that follows a function's return yields the error
+		// or (for a moment) nothing, depending on timing: keep only callbacks for which an empty
+		// poll changes nothing (output reset, or the operation is over)
+		for i := range cs.cbs {
+			if !cs.cbs[i].complete && !cs.cbs[i].fnErr {
+				cs.cbs[i].reset = true
+			}
+		}
+	}
+	if cs.echo && cs.readFault == "" && r.Chance(1, 2) {
+		for i := range cs.cbs {
+			cb := &cs.cbs[i]
+			if !cb.nilFn && !cb.fnErr && !cb.delayed && r.Chance(1, 2) {
+				cb.inner = "show inner " + strconv.Itoa(i)
+				body := r.Pick([]string{"inner line one\ninner value 42", "ok", "a b c\n\nd", "Status: ERROR 7"})
+				if cs.special == nil {
+					cs.special = map[string][][]byte{}
+					cs.innerBody = map[string]string{}
+				}
+				cs.special[cb.inner] = c18cut(r, "\n"+body+"\nrouter#")
+				cs.innerBody[cb.inner] = body
+				break
+			}
+		}
+	}
 }
 
 // genC18Delayed: the NextTimeout / stage-deadline cases. cb0 fires on the first emission and makes
@@ -405,6 +503,7 @@ type c18run struct {
 	result  string
 	events  []c18event
 	fired   []int
+	sawSentinel bool
 }
 
 func (r c18run) String() string {
@@ -432,8 +531,9 @@ func (r c18run) same(o c18run) bool {
 }
 
 type c18arrival struct {
-	gap  int
-	data []byte
+	gap      int
+	data     []byte
+	sentinel bool // marks "the poll error would be seen here" for c18specOp
 }
 
 // c18spec runs the property's wording over an arrival history.
@@ -455,6 +555,10 @@ func c18spec(cbs []c18cb, fired0 []int, timeout int, arrivals []c18arrival) c18r
 	t, el := timeout, 0
 	for _, a := range arrivals {
 		if el+a.gap >= t {
+			return finish("timeout")
+		}
+		if a.sentinel {
+			run.sawSentinel = true
 			return finish("timeout")
 		}
 		el += a.gap
@@ -496,9 +600,35 @@ func c18spec(cbs []c18cb, fired0 []int, timeout int, arrivals []c18arrival) c18r
 	return finish("timeout")
 }
 
+// c18specOp is the property's reading of one whole operation: a refused option or a failing input
+// write ends it before any callback can run; a poll error ends it unless it had ended already.
+func c18specOp(cs *c18case, k int, armed bool, fired0 []int, arrivals []c18arrival) c18run {
+	op := cs.ops[k]
+	if op.optErr {
+		return c18run{outcome: "opt", fired: append([]int{}, fired0...)}
+	}
+	if op.input != "" && op.writeErr != 0 {
+		return c18run{outcome: "write", fired: append([]int{}, fired0...)}
+	}
+	if !armed {
+		return c18spec(cs.cbs, fired0, op.timeout, arrivals)
+	}
+	// with a pending poll error: the loop sees the history, then the error instead of silence
+	probe := append(append([]c18arrival{}, arrivals...), c18arrival{gap: 0, data: nil, sentinel: true})
+	r := c18spec(cs.cbs, fired0, op.timeout, probe)
+	if r.sawSentinel {
+		r.outcome, r.result = "read", ""
+	}
+	return r
+}
+
 // ---- running the real code ----
 
 type c18fire struct {
+	skipFrom, skipTo int    // chunks [skipFrom, skipTo) were consumed by the function's own channel operation
+	innerRan         bool
+	innerRes         string
+	innerErr         string
 	idx      int
 	arg      string
 	consumed int // chunks handed to the callback loop when the function returned
@@ -514,6 +644,9 @@ type c18opObs struct {
 	consumed  int // chunks consumed when the operation returned
 	startAt   int // chunks consumed when the operation started
 	emitted   int // chunks the device had emitted when the operation returned
+	failed    bool   // Response.Failed != nil
+	armed     bool   // the transport fault had happened when the operation returned
+	skipped   bool   // not run (an earlier operation broke the transport)
 }
 
 type c18obs struct {
@@ -583,18 +716,61 @@ func runC18case(cs c18case) c18obs {
 	}
 	ms := func(x int) time.Duration { return time.Duration(x*cs.tscale) * time.Millisecond }
 	dev := sim.NewScript(cs.emissions)
+	dev.Echo = cs.echo
+	dev.Special = cs.special
+	if cs.readFault != "" {
+		off, n := 0, 0
+		for _, e := range cs.emissions {
+			for _, ch := range e {
+				if n < cs.faultAt {
+					off += len(ch)
+					n++
+				}
+			}
+		}
+		if cs.readFault == "eio" {
+			dev.ErrAt = off
+		} else {
+			dev.EOFAt = off
+		}
+	}
 	lg := &c18log{}
-	d, err := generic.NewDriver("h", options.WithCustomTransport(dev), options.WithAuthBypass(),
-		options.WithTimeoutOps(3*time.Second), options.WithReadDelay(50*time.Microsecond), options.WithChannelLog(lg))
-	if err != nil {
-		o.newErr = "new:" + err.Error()
-		return o
+	dopts := []util.Option{options.WithCustomTransport(dev), options.WithAuthBypass(),
+		options.WithTimeoutOps(3 * time.Second), options.WithReadDelay(50 * time.Microsecond), options.WithChannelLog(lg)}
+	if cs.drvFW != nil {
+		dopts = append(dopts, options.WithFailedWhenContains(cs.drvFW))
 	}
-	if err := d.Open(); err != nil {
-		o.newErr = "open:" + errClass(err)
-		return o
+	var d *generic.Driver
+	var send func(string, []*generic.Callback, time.Duration, ...util.Option) (*response.Response, error)
+	if cs.network {
+		dopts = append(dopts, options.WithPrivilegeLevels(map[string]*network.PrivilegeLevel{
+			"exec": {Name: "exec", Pattern: `(?im)^[a-z0-9.\-@()/:]{1,48}#\s*$`}}), options.WithDefaultDesiredPriv("exec"))
+		nd, err := network.NewDriver("h", dopts...)
+		if err != nil {
+			o.newErr = "new:" + err.Error()
+			return o
+		}
+		if err := nd.Open(); err != nil {
+			o.newErr = "open:" + errClass(err)
+			return o
+		}
+		defer nd.Close()
+		d = nd.Driver
+		send = nd.SendWithCallbacks // promoted from the embedded generic driver
+	} else {
+		gd, err := generic.NewDriver("h", dopts...)
+		if err != nil {
+			o.newErr = "new:" + err.Error()
+			return o
+		}
+		if err := gd.Open(); err != nil {
+			o.newErr = "open:" + errClass(err)
+			return o
+		}
+		defer gd.Close()
+		d = gd
+		send = gd.SendWithCallbacks
 	}
-	defer d.Close()
 	// settle: everything the device has emitted so far is in the channel queue (the log is written
 	// after the enqueue), so the queue depth tells what the next poll will find
 	settle := func() bool {
@@ -602,6 +778,11 @@ func runC18case(cs c18case) c18obs {
 		for {
 			dev.Mu.Lock()
 			em := dev.Emitted
+			for _, lim := range []int{dev.ErrAt, dev.EOFAt} {
+				if lim >= 0 && em > lim {
+					em = lim // nothing beyond the fault offset is ever delivered
+				}
+			}
 			dev.Mu.Unlock()
 			if lg.bytes.Load() >= int64(em) {
 				return true
@@ -615,6 +796,7 @@ func runC18case(cs c18case) c18obs {
 	}
 	curOp := 0
 	calls := 0
+	innerUsed := map[int]bool{} // a function runs its own channel operation the first time only
 	var lastRet time.Time
 	var cbs []*generic.Callback
 	for i := range cs.cbs {
@@ -632,6 +814,24 @@ func runC18case(cs c18case) c18obs {
 				f.consumed = int(lg.writes.Load()) - f.depth
 				o.fires = append(o.fires, f)
 				return errC18User
+			}
+			if cb.inner != "" && !innerUsed[i] {
+				innerUsed[i] = true
+				settle()
+				if dp := dd.Channel.Q.GetDepth(); dp == 0 {
+					// the function runs a channel operation of its own: what that consumes never
+					// reaches the callback loop
+					f.skipFrom = int(lg.writes.Load())
+					res, ierr := dd.Channel.SendInput(cb.inner)
+					settle()
+					f.skipTo = int(lg.writes.Load()) - dd.Channel.Q.GetDepth()
+					f.innerRan, f.innerRes = true, string(res)
+					if ierr != nil {
+						f.innerErr = ierr.Error()
+					}
+				} else if err := dd.Channel.WriteAndReturn([]byte(cb.inner), false); err != nil {
+					return err
+				}
 			}
 			if cb.delayed {
 				dev.Mu.Lock()
@@ -660,9 +860,33 @@ func runC18case(cs c18case) c18obs {
 	if cs.banner {
 		dev.EmitNextLocked()
 	}
+	broken := false
 	for k, op := range cs.ops {
 		curOp = k
 		var ob c18opObs
+		if broken {
+			ob.skipped = true
+			o.ops = append(o.ops, ob)
+			continue
+		}
+		var oo []util.Option
+		if op.opFW != nil {
+			oo = append(oo, opoptions.WithFailedWhenContains(op.opFW))
+		}
+		if op.ignoredOpt {
+			oo = append(oo, opoptions.WithCallbackOnce(), options.WithPromptSearchDepth(7)) // meant for other objects
+		}
+		if op.optErr {
+			oo = append(oo, func(interface{}) error { return fmt.Errorf("%w: refused by the harness", util.ErrBadOption) })
+		}
+		if op.writeErr != 0 {
+			dev.SetFaults(func(p *sim.Pipe) {
+				p.WriteErrAfter = p.Written
+				if op.writeErr == 2 {
+					p.WriteErrAfter += len(op.input)
+				}
+			})
+		}
 		settle()
 		ob.startAt = int(lg.writes.Load()) - d.Channel.Q.GetDepth()
 		nf := len(o.fires)
@@ -674,7 +898,7 @@ func runC18case(cs c18case) c18obs {
 					ee = fmt.Errorf("%w: %v", errC18Panic, p)
 				}
 			}()
-			return d.SendWithCallbacks(op.input, cbs, ms(op.timeout))
+			return send(op.input, cbs, ms(op.timeout), oo...)
 		}()
 		ob.elapsedMs = int(time.Since(t0) / time.Millisecond)
 		ob.lastEvMs = int(time.Since(lastRet) / time.Millisecond)
@@ -682,6 +906,13 @@ func runC18case(cs c18case) c18obs {
 		case err == nil:
 			ob.run.outcome = "complete"
 			ob.run.result = r.Result
+			ob.failed = r.Failed != nil
+		case errors.Is(err, sim.ErrWrite):
+			ob.run.outcome = "write"
+		case errors.Is(err, sim.ErrIO) || errClass(err) == "connection":
+			ob.run.outcome = "read"
+		case errClass(err) == "badoption":
+			ob.run.outcome = "opt"
 		case errors.Is(err, errC18User):
 			ob.run.outcome = "fn"
 		case errors.Is(err, errC18Panic):
@@ -705,10 +936,11 @@ func runC18case(cs c18case) c18obs {
 		ob.consumed = int(lg.writes.Load()) - d.Channel.Q.GetDepth()
 		dev.Mu.Lock()
 		ob.emitted = len(dev.EmittedChunks)
+		ob.armed = (dev.ErrAt >= 0 && dev.Delivered >= dev.ErrAt) || (dev.EOFAt >= 0 && dev.Delivered >= dev.EOFAt)
 		dev.Mu.Unlock()
 		o.ops = append(o.ops, ob)
-		if ob.run.outcome == "timeout" || strings.HasPrefix(ob.run.outcome, "other") {
-			break // the reader goroutine of a timed-out stage may still be polling: do not start another operation
+		if ob.armed || ob.run.outcome == "write" || ob.run.outcome == "read" || strings.HasPrefix(ob.run.outcome, "other") {
+			broken = true // the transport is gone (or the library misbehaved): no further operation
 		}
 	}
 	dev.Snapshot(func() {
@@ -732,19 +964,37 @@ func c18arrivals(cs *c18case, o *c18obs, k int) []c18arrival {
 	var out []c18arrival
 	start := o.ops[k].startAt
 	for n := emptiesAfter[start]; n > 0; n-- {
-		out = append(out, c18arrival{0, nil})
+		out = append(out, c18arrival{gap: 0})
+	}
+	skip := func(ci int) bool {
+		for _, f := range o.fires {
+			if f.innerRan && f.skipFrom <= ci && ci < f.skipTo {
+				return true
+			}
+		}
+		return false
+	}
+	end := o.ops[k].emitted
+	if o.ops[k].armed && o.ops[k].consumed < end {
+		end = o.ops[k].consumed // the poll error overtakes whatever was still queued
 	}
 	seenEm := map[int]bool{}
-	for ci := start; ci < len(o.chunks) && ci < o.ops[k].emitted; ci++ {
+	for ci := start; ci < len(o.chunks) && ci < end; ci++ {
 		ch := o.chunks[ci]
+		if skip(ci) {
+			for n := emptiesAfter[ci+1]; n > 0; n-- {
+				out = append(out, c18arrival{gap: 0})
+			}
+			continue
+		}
 		gap := 0
 		if o.delayedE[ch.Emission] && !seenEm[ch.Emission] {
 			gap = c18Delay
 		}
 		seenEm[ch.Emission] = true
-		out = append(out, c18arrival{gap, ch.Data})
+		out = append(out, c18arrival{gap: gap, data: ch.Data})
 		for n := emptiesAfter[ci+1]; n > 0; n-- {
-			out = append(out, c18arrival{0, nil})
+			out = append(out, c18arrival{gap: 0})
 		}
 	}
 	// a late emission that was still pending when the operation returned (it timed out first) is
@@ -757,7 +1007,7 @@ func c18arrivals(cs *c18case, o *c18obs, k int) []c18arrival {
 					if j == 0 {
 						gap = c18Delay
 					}
-					out = append(out, c18arrival{gap, ch})
+					out = append(out, c18arrival{gap: gap, data: ch})
 				}
 			}
 		}
@@ -765,8 +1015,8 @@ func c18arrivals(cs *c18case, o *c18obs, k int) []c18arrival {
 	return out
 }
 
-func c18line(cs *c18case, fired0 []int, timeout int, arrivals []c18arrival) string {
-	f := []string{"c18", "run", strconv.Itoa(timeout)}
+func c18line(cs *c18case, k int, armed bool, fired0 []int, timeout int, arrivals []c18arrival) string {
+	f := []string{"c18", "op", strconv.Itoa(timeout)}
 	if len(fired0) == 0 {
 		f = append(f, ".")
 	} else {
@@ -776,6 +1026,11 @@ func c18line(cs *c18case, fired0 []int, timeout int, arrivals []c18arrival) stri
 		}
 		f = append(f, strings.Join(s, ","))
 	}
+	re := "-"
+	if armed {
+		re = "0"
+	}
+	f = append(f, vlib.Hex([]byte(cs.ops[k].input)), b2s(cs.ops[k].optErr), b2s(cs.ops[k].writeErr != 0), re)
 	f = append(f, strconv.Itoa(len(cs.cbs)))
 	for i := range cs.cbs {
 		cb := &cs.cbs[i]
@@ -887,6 +1142,14 @@ func c18Constructor(c *ctx) {
 	}
 	if _, err := generic.NewCallback(nil, opoptions.WithCallbackNotContains("x"), opoptions.WithCallbackOnce()); errClass(err) != "badoption" {
 		res.Fail("oracle", "c18 constructor", fmt.Sprintf("NewCallback with only not-contains returned %v, expected a bad-option error", err), "constructor")
+	}
+	// an option that fails (here: one meant for another object, which answers "ignored") makes the
+	// constructor fail: unlike the driver constructors, NewCallback does not skip ignored options
+	if cbx, err := generic.NewCallback(nil, opoptions.WithCallbackContains("x"), opoptions.WithNoStripPrompt()); err == nil || cbx != nil {
+		res.Fail("oracle", "c18 constructor", fmt.Sprintf("NewCallback with a foreign option returned %v, %v; expected an error and no callback", cbx, err), "constructor-option-error")
+	}
+	if cbx, err := generic.NewCallback(nil, func(interface{}) error { return util.ErrBadOption }, opoptions.WithCallbackContains("x")); errClass(err) != "badoption" || cbx != nil {
+		res.Fail("oracle", "c18 constructor", fmt.Sprintf("NewCallback with a failing option returned %v, %v; expected that error and no callback", cbx, err), "constructor-option-error")
 	}
 	cb, err := generic.NewCallback(nil, opoptions.WithCallbackContains("x"))
 	if err != nil || !cb.Insensitive || !cb.ResetOutput || cb.Once || cb.Complete || cb.NextTimeout != 0 {
@@ -1033,13 +1296,16 @@ func c18round(c *ctx, cases []c18case, par int, first bool) (retry []c18case) {
 		o := &obs[i]
 		var fired []int
 		for k := range o.ops {
+			if o.ops[k].skipped {
+				continue
+			}
 			a := c18arrivals(cs, o, k)
 			rf := ref{i, k}
 			arrs[rf] = a
 			fired0s[rf] = fired
-			sp := c18spec(cs.cbs, fired, cs.ops[k].timeout, a)
+			sp := c18specOp(cs, k, o.ops[k].armed, fired, a)
 			specs[rf] = sp
-			lines = append(lines, c18line(cs, fired, cs.ops[k].timeout, a))
+			lines = append(lines, c18line(cs, k, o.ops[k].armed, fired, cs.ops[k].timeout, a))
 			refs = append(refs, rf)
 			fired = sp.fired
 		}
@@ -1059,6 +1325,16 @@ func c18round(c *ctx, cases []c18case, par int, first bool) (retry []c18case) {
 		caseLine := fmt.Sprintf("c18case %d%s", cs.seed, tier)
 		count("kind:" + cs.kind)
 		count(fmt.Sprintf("callbacks:%d", len(cs.cbs)))
+		count(fmt.Sprintf("flavour: network=%v echo=%v", cs.network, cs.echo))
+		for _, cb := range cs.cbs {
+			count(fmt.Sprintf("cb: reset=%v once=%v complete=%v", cb.reset, cb.once, cb.complete))
+			if cb.nilFn && !cb.complete {
+				count("cb: no function, not complete")
+			}
+			if cb.inner != "" {
+				count("cb: runs a channel operation")
+			}
+		}
 		if o.newErr != "" {
 			res.Fail("machinery", caseLine, "could not set the case up: "+o.newErr, "setup")
 			continue
@@ -1082,6 +1358,7 @@ func c18round(c *ctx, cases []c18case, par int, first bool) (retry []c18case) {
 		nontriv := false
 		allDom := true
 		bad := false
+		innerSeen := map[int]bool{}
 		var wantWritten strings.Builder
 		for _, li := range byCase[i] {
 			rf := refs[li]
@@ -1136,10 +1413,13 @@ func c18round(c *ctx, cases []c18case, par int, first bool) (retry []c18case) {
 				if ob.run.outcome == "timeout" && c18prefix(ob.run.events, want.events) && len(ob.run.events) < len(want.events) {
 					return "trigger-held-no-callback" // a trigger held on the accumulated output, yet nothing ran and the operation timed out
 				}
+				if ob.run.outcome == "timeout" && c18prefix(ob.run.events, want.events) && !setupOrRead(want.outcome) {
+					return "early-timeout-vs-" + want.outcome // all visible callbacks ran, then a timeout where the property demands another ending
+				}
 				return base
 			}
 			// oracle: the property on the implementation
-			if first && len(retry) < 12 && !want.same(ob.run) && ob.run.outcome == "timeout" && c18prefix(ob.run.events, want.events) {
+			if first && len(retry) < 12 && !want.same(ob.run) && ob.run.outcome == "timeout" && c18prefix(ob.run.events, want.events) && !setupOrRead(want.outcome) {
 				retry = append(retry, *cs)
 				count("early-timeout-suspect")
 				bad = true
@@ -1174,13 +1454,70 @@ func c18round(c *ctx, cases []c18case, par int, first bool) (retry []c18case) {
 			if len(gspec.events) > 0 {
 				nontriv = true
 			}
-			if cs.ops[k].input != "" {
+			// failure marking of the final response: the strings given for the operation, otherwise the driver's
+			if ob.run.outcome == "complete" {
+				fw := cs.ops[k].opFW
+				if len(fw) == 0 {
+					fw = cs.drvFW
+				}
+				wantFailed := false
+				for _, w := range fw {
+					wantFailed = wantFailed || strings.Contains(ob.run.result, w)
+				}
+				if len(fw) > 0 {
+					count(fmt.Sprintf("failed-when: in force, failed=%v", wantFailed))
+				}
+				if ob.failed != wantFailed {
+					res.Fail("oracle", caseLine, fmt.Sprintf("op %d: Response.Failed set=%v, but the failure strings in force %q and the result %q demand %v (operation strings %q, driver strings %q)",
+						k, ob.failed, fw, ob.run.result, wantFailed, cs.ops[k].opFW, cs.drvFW), "failed-marking")
+					bad = true
+					break
+				}
+			}
+			// a channel operation run by a callback function itself returns its own exchange
+			for _, fr := range o.fires {
+				if fr.op == k && fr.innerRan {
+					count("inner-operation-ran")
+					if want := cs.innerBody[cs.cbs[fr.idx].inner]; fr.innerErr != "" || fr.innerRes != want {
+						res.Fail("oracle", caseLine, fmt.Sprintf("op %d: Channel.SendInput(%q) inside callback %d returned %q err %q, expected %q", k, cs.cbs[fr.idx].inner, fr.idx, fr.innerRes, fr.innerErr, want), "inner-operation-result")
+						bad = true
+					}
+				}
+			}
+			if bad {
+				break
+			}
+			switch {
+			case cs.ops[k].optErr:
+			case cs.ops[k].input != "" && cs.ops[k].writeErr == 1:
+			case cs.ops[k].input != "" && cs.ops[k].writeErr == 2:
+				wantWritten.WriteString(cs.ops[k].input)
+			case cs.ops[k].input != "":
 				wantWritten.WriteString(cs.ops[k].input + "\n")
 			}
 			for _, e := range gspec.events {
 				cb := &cs.cbs[e.idx]
-				if !cb.nilFn && !cb.fnErr && !cb.delayed && cb.reply != "" {
+				if cb.nilFn || cb.fnErr {
+					continue
+				}
+				if cb.inner != "" && !innerSeen[e.idx] {
+					innerSeen[e.idx] = true
+					wantWritten.WriteString(cb.inner + "\n")
+				}
+				if !cb.delayed && cb.reply != "" {
 					wantWritten.WriteString(cb.reply + "\n")
+				}
+			}
+			if k > 0 && o.ops[k].startAt < o.ops[k-1].emitted {
+				count("next-operation-starts-with-leftover-output")
+			}
+			for _, fl := range []struct {
+				on bool
+				n  string
+			}{{cs.ops[k].optErr, "op:option-error"}, {cs.ops[k].ignoredOpt, "op:foreign-options"}, {cs.ops[k].writeErr != 0, "op:write-fault"},
+				{ob.armed, "op:read-fault-" + cs.readFault}, {cs.ops[k].opFW != nil, "op:failed-when"}, {cs.ops[k].input == "", "op:empty-input"}, {k > 0, fmt.Sprintf("op:number-%d", k+1)}} {
+				if fl.on {
+					count(fl.n)
 				}
 			}
 		}
@@ -1206,6 +1543,9 @@ func c18round(c *ctx, cases []c18case, par int, first bool) (retry []c18case) {
 	res.TracesVsImpl += len(cases)
 	return retry
 }
+
+// setupOrRead: endings that machine load cannot turn into a timeout (they do not wait for output)
+func setupOrRead(o string) bool { return o == "opt" || o == "write" || o == "read" }
 
 func c18prefix(a, b []c18event) bool {
 	if len(a) > len(b) {
